@@ -297,7 +297,7 @@ ERef(o, st, tc) ==
       asc == DistilP(P, A, s, MaxCred(M, A), 1, "asc", FALSE)
       dr == DistilP(P, A, s, MaxCred(M, A), 1, "desc", FALSE)
       mx == SetMax({dr[a] : a \in A})
-  IN [asc |-> asc, desc |-> [a \in A |-> mx + 1 - dr[a]], fragile |-> Fragile(M, A, s)]
+  IN [asc |-> asc, desc |-> [a \in A |-> mx + 1 - dr[a]], fragile |-> FragileX(M, InexactMatrix(ECrs(st), StX(st), A, tc), A, s)]
 
 (* stage 1: the recorded credibility matrix (hook H2, integers of 1e-6) against the exact rationals; entries whose *)
 (* denominator would overflow TLC's integers are skipped                                                        *)
